@@ -252,14 +252,44 @@ def tyrving(ctx, repo):
     if not (rets[0][0].lb is not None and rets[0][0].lb >= 0):
         ctx.finding('TYR', '%s::TyrvingCalculator.race_points::non-negative' % TYR, TYR, rets[0][1].lineno, 'race points are not clamped at 0')
     # hand timing: increments are constants >= 0 and are added to the time
-    adds = [n for n in ast.walk(rp) if isinstance(n, ast.AugAssign) and isinstance(n.value, ast.Name)
-            and isinstance(getattr(n, '_parent', None), ast.If) and 'manual' in ast.unparse(n._parent.test)]
-    incn = adds[0].value.id if adds else None
-    incs = [n for n in ast.walk(rp) if isinstance(n, ast.Assign) and incn and ast.unparse(n.targets[0]) == incn]
-    consts = [c.value for i in incs for c in ast.walk(i.value) if isinstance(c, ast.Constant) and isinstance(c.value, (int, float))
-              and not isinstance(getattr(c, '_parent', None), (ast.Tuple, ast.List, ast.Compare))]
-    in_manual = all('manual' in ast.unparse(getattr(a, '_parent', None).test) for a in adds if isinstance(getattr(a, '_parent', None), ast.If))
-    if incs and adds and all(isinstance(a.op, ast.Add) for a in adds) and all(c >= 0 for c in consts) and in_manual:
+    def under_manual(n):
+        p_ = getattr(n, '_parent', None)
+        while p_ is not None and p_ is not rp:
+            if isinstance(p_, ast.If) and 'manual' in ast.unparse(p_.test):
+                return True
+            p_ = getattr(p_, '_parent', None)
+        return False
+    adds = [n for n in ast.walk(rp) if isinstance(n, ast.AugAssign) and under_manual(n)]
+    incs = []
+    for a_ in adds:
+        if isinstance(a_.value, ast.Name):
+            incs += [n.value for n in ast.walk(rp) if isinstance(n, ast.Assign) and ast.unparse(n.targets[0]) == a_.value.id]
+        else:
+            incs.append(a_.value)        # the increment written in place: `v += <table of constants>`
+
+    def in_test(c):
+        p_ = getattr(c, '_parent', None)
+        while p_ is not None and not isinstance(p_, ast.stmt):
+            if isinstance(p_, ast.Compare):
+                return True
+            if isinstance(p_, ast.Dict) and c in p_.keys:
+                return True
+            p_ = getattr(p_, '_parent', None)
+        return False
+    consts = [c.value for i in incs for c in ast.walk(i) if isinstance(c, ast.Constant) and isinstance(c.value, (int, float))
+              and not isinstance(c.value, bool) and not in_test(c)]
+    # the increment must be visible as constants: anything else (a call, a table lookup) is not decided here - the normalised views
+    # (sa/views.py) write a lookup in a constant table out as the conditional chain it abbreviates
+    def visible(e):
+        if isinstance(e, ast.Constant):
+            return True
+        if isinstance(e, ast.IfExp):
+            return visible(e.body) and visible(e.orelse)
+        if isinstance(e, ast.BinOp) and isinstance(e.op, (ast.Add, ast.Mult)):
+            return visible(e.left) and visible(e.right)
+        return False
+    in_manual = bool(adds) and all(visible(i) for i in incs)
+    if incs and adds and consts and all(isinstance(a.op, ast.Add) for a in adds) and all(c >= 0 for c in consts) and in_manual:
         ctx.ok('TYR', 'hand-timing increments %s are >= 0 and added to the time' % sorted(set(consts)))
     else:
         ctx.finding('TYR', '%s::TyrvingCalculator.race_points::hand-timing correction' % TYR, TYR, rp.lineno,
